@@ -29,7 +29,9 @@ TraceNewG ==
   /\ IsEvent("NewG")
   /\ LET e == Log[l]
          a == e.args
-         o == NewG(Pairs(a.pos), Pairs(a.neg), a.sc, a.ec)
+         o0 == NewG(Pairs(a.pos), Pairs(a.neg), a.sc, a.ec)
+         (* explicitly given group names are used as they are, in the given order            *)
+         o == IF "names" \in DOMAIN a /\ Len(a.names) > 0 THEN [o0 EXCEPT !.groups = a.names] ELSE o0
      IN /\ store' = (e.h :> o) @@ store /\ UNCHANGED run
         /\ raw' = (e.h :> (IF e.exc = "" THEN RawOf(e.post, o) ELSE o)) @@ raw
         /\ Report(e, Failing({
